@@ -262,7 +262,9 @@ def histories(draw, o=None):
                     dofiles = rest
                     ops.append(["rmdo", dof])
         elif k == "mkpath":
-            if draw(st.integers(0, 99)) < o.get("p_mkdir", 0):
+            if draw(st.integers(0, 99)) < o.get("p_dangling", 0):
+                ops.append(["mkpath", _pick(draw, proj["watch"]), "dangling"])
+            elif draw(st.integers(0, 99)) < o.get("p_mkdir", 0):
                 ops.append(["mkpath", _pick(draw, proj["watch"]), "dir"])
             else:
                 ops.append(["mkpath", _pick(draw, proj["watch"])])
